@@ -54,6 +54,19 @@ fn call(op: usize, shared: bool) -> String {
             Instant::try_new(t).unwrap().to_ixdtf_string(Some(&TimeZone::try_from_str("Asia/Tokyo").unwrap()), ToStringRoundingOptions::default()),
             Instant::try_new(t).unwrap().to_ixdtf_string_with_provider(Some(&TimeZone::try_from_str("Asia/Tokyo").unwrap()), ToStringRoundingOptions::default(), &p)
         ),
+        8 => {
+            // the Display implementation (to_string / format!): it takes the shared provider itself
+            if shared {
+                use std::fmt::Write;
+                let mut text = String::new();
+                match write!(&mut text, "{}", zdt(t, "Europe/London")) {
+                    Ok(()) => format!("Ok({text:?})"),
+                    Err(_) => "Err(fmt::Error)".to_string(),
+                }
+            } else {
+                format!("{:?}", zdt(t, "Europe/London").to_string_with_provider(&p).map_err(|e| e.kind()))
+            }
+        }
         _ => unreachable!(),
     }
 }
@@ -121,6 +134,7 @@ fn main() {
         Harness { name: "2 threads x 2 calls, unbounded", threads: vec![vec![0, 1], vec![2, 3]], preemption_bound: None },
         Harness { name: "3 threads x 2 calls, preemption bound 2", threads: vec![vec![0, 1], vec![2, 3], vec![4, 5]], preemption_bound: Some(2) },
         Harness { name: "2 threads, same zone cold cache, unbounded", threads: vec![vec![0, 6], vec![3, 0]], preemption_bound: None },
+        Harness { name: "2 threads, Display next to getters, unbounded", threads: vec![vec![8, 0], vec![2, 8]], preemption_bound: None },
     ];
     if tier == "thorough" {
         hs.push(Harness { name: "3 threads x 2 calls, unbounded", threads: vec![vec![0, 1], vec![2, 3], vec![4, 5]], preemption_bound: None });
